@@ -319,16 +319,28 @@ def c01_rules(m):
     return [r1, r2, r3, block_printers(m)]
 
 
-def _always_appends(stmts, var):
-    """Every path through stmts appends <var>.tofortran(...) (or str(var)) to some list, with no early exit."""
+def _derived(stmts, var):
+    """var and the locals computed from it in these statements (`text = var.tofortran(...)`; then `lines.append(text)` emits var)"""
+    names = {var}
+    for _ in range(3):
+        for s in stmts:
+            for n in ast.walk(s):
+                if isinstance(n, ast.Assign) and len(n.targets) == 1 and isinstance(n.targets[0], ast.Name) and (A.names_in(n.value) & names):
+                    names.add(n.targets[0].id)
+    return names
+
+
+def _always_appends(stmts, var, names=None):
+    """Every path through stmts appends <var>.tofortran(...) (or str(var), or a local computed from var) to some list, with no early exit."""
+    names = names or _derived(stmts, var)
     for s in stmts:
         if isinstance(s, (ast.Continue, ast.Break, ast.Return)):
             return False
         if isinstance(s, ast.Expr) and isinstance(s.value, ast.Call) and isinstance(s.value.func, ast.Attribute) and s.value.func.attr == "append" \
-                and s.value.args and var in A.names_in(s.value.args[0]):
+                and s.value.args and (names & A.names_in(s.value.args[0])):
             return True
         if isinstance(s, ast.If):
-            if s.orelse and _always_appends(s.body, var) and _always_appends(s.orelse, var):
+            if s.orelse and _always_appends(s.body, var, names) and _always_appends(s.orelse, var, names):
                 return True
             if any(isinstance(x, (ast.Continue, ast.Break, ast.Return)) for b in (s.body, s.orelse) for y in b for x in ast.walk(y)):
                 return False
@@ -362,8 +374,9 @@ def block_printers(m):
             first_var = [A.text(n.targets[0]) for n in A.body_nodes(f.node) if isinstance(n, ast.Assign) and A.text(n.value) == "self.content[0]"]
             last_var = [A.text(n.targets[0]) for n in A.body_nodes(f.node) if isinstance(n, ast.Assign) and A.text(n.value) == "self.content[-1]"]
             def emitted(var):
+                names = _derived(f.node.body, var)
                 return any(isinstance(c, ast.Call) and isinstance(c.func, ast.Attribute) and c.func.attr == "append" and c.args
-                           and var in A.names_in(c.args[0]) for c in A.calls(f.node))
+                           and (names & A.names_in(c.args[0])) for c in A.calls(f.node))
             if not first_var or not emitted(first_var[0]):
                 why = "the first statement (self.content[0]) is not emitted"
             elif not last_var or not emitted(last_var[0]):
